@@ -32,7 +32,7 @@ theorem iter_nextIdx (n k : Nat) : (nextIdx n)^[k] 0 = k % n := by
 
 /-! ### one iteration of the loop, case by case -/
 section
-variable (cutoff cap0 : α) (phases : List (String × α)) (solveI : α → α → String → Except Err α)
+variable (cutoff cap0 : α) (phases : List (String × α)) (solveI : α → α → String → Except Err (α × Nat))
 
 theorem loop_dead (script : List (Cb α)) (b : BState α) (p : Nat) (tlast vo rs : α) (hl : live cutoff b = false) :
     loop cutoff cap0 phases solveI script b p tlast vo rs = ⟨[], [], vo, rs, .ok⟩ := by
@@ -43,26 +43,32 @@ theorem loop_err (script : List (Cb α)) (b : BState α) (p : Nat) (tlast vo rs 
     loop cutoff cap0 phases solveI script b p tlast vo rs = ⟨[], [], b.volt, b.rs, .raised e⟩ := by
   rw [loop]; simp only [hl, if_true, hs]
 
+theorem loop_nonconv (script : List (Cb α)) (b : BState α) (p : Nat) (tlast vo rs : α) (hl : live cutoff b = true)
+    (i : α) (it : Nat) (hs : solveI b.volt b.rs ((phaseList phases).getD p "") = .ok (i, it)) (hit : it > 10000) :
+    loop cutoff cap0 phases solveI script b p tlast vo rs =
+      ⟨[], [], b.volt, b.rs, .raised (.runtime "Steady-state not achieved")⟩ := by
+  rw [loop]; simp only [hl, if_true, hs, hit]
+
 theorem loop_nil (b : BState α) (p : Nat) (tlast vo rs : α) (hl : live cutoff b = true)
-    (i : α) (hs : solveI b.volt b.rs ((phaseList phases).getD p "") = .ok i) :
+    (i : α) (it : Nat) (hs : solveI b.volt b.rs ((phaseList phases).getD p "") = .ok (i, it)) (hit : ¬ it > 10000) :
     loop cutoff cap0 phases solveI [] b p tlast vo rs = ⟨[], [], b.volt, b.rs, .exhausted⟩ := by
-  rw [loop]; simp only [hl, if_true, hs]
+  rw [loop]; simp only [hl, if_true, hs, hit, if_false]
 
 theorem loop_raise (e : Err) (rest : List (Cb α)) (b : BState α) (p : Nat) (tlast vo rs : α) (hl : live cutoff b = true)
-    (i : α) (hs : solveI b.volt b.rs ((phaseList phases).getD p "") = .ok i) :
+    (i : α) (it : Nat) (hs : solveI b.volt b.rs ((phaseList phases).getD p "") = .ok (i, it)) (hit : ¬ it > 10000) :
     loop cutoff cap0 phases solveI (.raise e :: rest) b p tlast vo rs =
       ⟨[], [(deltaT phases cap0 i ((phaseList phases).getD p ""), i)], b.volt, b.rs, .raised e⟩ := by
-  rw [loop]; simp only [hl, if_true, hs]
+  rw [loop]; simp only [hl, if_true, hs, hit, if_false]
 
 theorem loop_ret (b' : BState α) (rest : List (Cb α)) (b : BState α) (p : Nat) (tlast vo rs : α) (hl : live cutoff b = true)
-    (i : α) (hs : solveI b.volt b.rs ((phaseList phases).getD p "") = .ok i) :
+    (i : α) (it : Nat) (hs : solveI b.volt b.rs ((phaseList phases).getD p "") = .ok (i, it)) (hit : ¬ it > 10000) :
     loop cutoff cap0 phases solveI (.ret b' :: rest) b p tlast vo rs =
       (let dt := deltaT phases cap0 i ((phaseList phases).getD p "")
        let r := loop cutoff cap0 phases solveI rest b' ((p + 1) % (phaseList phases).length)
                   (if live cutoff b' then tlast + dt else tlast) b.volt b.rs
        ⟨(if live cutoff b' then [⟨tlast + dt, b'.cap, b'.volt, b'.rs⟩] else []) ++ r.rows, (dt, i) :: r.calls,
         r.vo, r.rs, r.outcome⟩) := by
-  rw [loop]; simp only [hl, if_true, hs]
+  rw [loop]; simp only [hl, if_true, hs, hit, if_false]
   by_cases hl' : live cutoff b' = true <;> simp [hl']
 
 /-! ### the argument stream -/
@@ -71,13 +77,14 @@ theorem stateBefore_succ (b b' : BState α) (rest : List (Cb α)) (k : Nat) :
     stateBefore b (.ret b' :: rest) (k + 1) = stateBefore b' rest k := by
   cases k <;> simp [stateBefore]
 
-/-- every `(Δt, I)` handed to the deplete callback is the solved current of the state the previous
+/-- every `(Δt, I)` handed to the deplete callback is the solved — and converged — current of the state the previous
     callback returned, in the phase the index has cycled to, with the matching `deltat` -/
 theorem loop_calls (script : List (Cb α)) :
     ∀ (b : BState α) (p : Nat) (tlast vo rs : α) (k : Nat) (dt i : α),
       (loop cutoff cap0 phases solveI script b p tlast vo rs).calls[k]? = some (dt, i) →
-      ∃ bk, stateBefore b script k = some bk ∧
-        solveI bk.volt bk.rs ((phaseList phases).getD ((nextIdx (phaseList phases).length)^[k] p) "") = .ok i ∧
+      ∃ bk it, stateBefore b script k = some bk ∧
+        solveI bk.volt bk.rs ((phaseList phases).getD ((nextIdx (phaseList phases).length)^[k] p) "") = .ok (i, it) ∧
+        it ≤ 10000 ∧
         dt = deltaT phases cap0 i ((phaseList phases).getD ((nextIdx (phaseList phases).length)^[k] p) "") := by
   induction script with
   | nil =>
@@ -85,40 +92,48 @@ theorem loop_calls (script : List (Cb α)) :
     by_cases hl : live cutoff b = true
     · cases hs : solveI b.volt b.rs ((phaseList phases).getD p "") with
       | error e => rw [loop_err _ _ _ _ _ _ _ _ _ _ hl e hs] at h; simp at h
-      | ok i0 => rw [loop_nil _ _ _ _ _ _ _ _ _ hl i0 hs] at h; simp at h
+      | ok r0 =>
+        obtain ⟨i0, it⟩ := r0
+        by_cases hit : it > 10000
+        · rw [loop_nonconv _ _ _ _ _ _ _ _ _ _ hl i0 it hs hit] at h; simp at h
+        · rw [loop_nil _ _ _ _ _ _ _ _ _ hl i0 it hs hit] at h; simp at h
     · rw [loop_dead _ _ _ _ _ _ _ _ _ _ (by simpa using hl)] at h; simp at h
   | cons c rest ih =>
     intro b p tlast vo rs k dt i h
     by_cases hl : live cutoff b = true
     · cases hs : solveI b.volt b.rs ((phaseList phases).getD p "") with
       | error e => rw [loop_err _ _ _ _ _ _ _ _ _ _ hl e hs] at h; simp at h
-      | ok i0 =>
-        have h0 : ∀ (l : List (α × α)), ((deltaT phases cap0 i0 ((phaseList phases).getD p ""), i0) :: l)[0]? = some (dt, i) →
-            ∃ bk, stateBefore b (c :: rest) 0 = some bk ∧
-              solveI bk.volt bk.rs ((phaseList phases).getD ((nextIdx (phaseList phases).length)^[0] p) "") = .ok i ∧
-              dt = deltaT phases cap0 i ((phaseList phases).getD ((nextIdx (phaseList phases).length)^[0] p) "") := by
-          intro l h
-          simp only [List.getElem?_cons_zero, Option.some.injEq, Prod.mk.injEq] at h
-          obtain ⟨h1, h2⟩ := h
-          subst h2
-          exact ⟨b, rfl, hs, h1.symm⟩
-        cases c with
-        | raise e =>
-          rw [loop_raise _ _ _ _ _ _ _ _ _ _ _ hl i0 hs] at h
-          cases k with
-          | zero => exact h0 _ h
-          | succ k => simp at h
-        | ret b' =>
-          rw [loop_ret _ _ _ _ _ _ _ _ _ _ _ hl i0 hs] at h
-          cases k with
-          | zero => exact h0 _ h
-          | succ k' =>
-            simp only [List.getElem?_cons_succ] at h
-            obtain ⟨bk, hb, hsol, hdt⟩ := ih b' _ _ b.volt b.rs k' dt i h
-            refine ⟨bk, ?_, ?_, ?_⟩
-            · rw [stateBefore_succ]; exact hb
-            · rw [Function.iterate_succ_apply]; exact hsol
-            · rw [Function.iterate_succ_apply]; exact hdt
+      | ok r0 =>
+        obtain ⟨i0, it⟩ := r0
+        by_cases hit : it > 10000
+        · rw [loop_nonconv _ _ _ _ _ _ _ _ _ _ hl i0 it hs hit] at h; simp at h
+        · have h0 : ∀ (l : List (α × α)), ((deltaT phases cap0 i0 ((phaseList phases).getD p ""), i0) :: l)[0]? = some (dt, i) →
+              ∃ bk it, stateBefore b (c :: rest) 0 = some bk ∧
+                solveI bk.volt bk.rs ((phaseList phases).getD ((nextIdx (phaseList phases).length)^[0] p) "") = .ok (i, it) ∧
+                it ≤ 10000 ∧
+                dt = deltaT phases cap0 i ((phaseList phases).getD ((nextIdx (phaseList phases).length)^[0] p) "") := by
+            intro l h
+            simp only [List.getElem?_cons_zero, Option.some.injEq, Prod.mk.injEq] at h
+            obtain ⟨h1, h2⟩ := h
+            subst h2
+            exact ⟨b, it, rfl, hs, by omega, h1.symm⟩
+          cases c with
+          | raise e =>
+            rw [loop_raise _ _ _ _ _ _ _ _ _ _ _ hl i0 it hs hit] at h
+            cases k with
+            | zero => exact h0 _ h
+            | succ k => simp at h
+          | ret b' =>
+            rw [loop_ret _ _ _ _ _ _ _ _ _ _ _ hl i0 it hs hit] at h
+            cases k with
+            | zero => exact h0 _ h
+            | succ k' =>
+              simp only [List.getElem?_cons_succ] at h
+              obtain ⟨bk, itk, hb, hsol, hle, hdt⟩ := ih b' _ _ b.volt b.rs k' dt i h
+              refine ⟨bk, itk, ?_, ?_, hle, ?_⟩
+              · rw [stateBefore_succ]; exact hb
+              · rw [Function.iterate_succ_apply]; exact hsol
+              · rw [Function.iterate_succ_apply]; exact hdt
     · rw [loop_dead _ _ _ _ _ _ _ _ _ _ (by simpa using hl)] at h; simp at h
 
 /-! ### the log -/
@@ -142,32 +157,39 @@ theorem loop_rows (script : List (Cb α)) :
     by_cases hl : live cutoff b = true
     · cases hs : solveI b.volt b.rs ((phaseList phases).getD p "") with
       | error e => rw [loop_err _ _ _ _ _ _ _ _ _ _ hl e hs] at h; simp at h
-      | ok i0 => rw [loop_nil _ _ _ _ _ _ _ _ _ hl i0 hs] at h; simp at h
+      | ok r0 =>
+        obtain ⟨i0, it⟩ := r0
+        by_cases hit : it > 10000
+        · rw [loop_nonconv _ _ _ _ _ _ _ _ _ _ hl i0 it hs hit] at h; simp at h
+        · rw [loop_nil _ _ _ _ _ _ _ _ _ hl i0 it hs hit] at h; simp at h
     · rw [loop_dead _ _ _ _ _ _ _ _ _ _ (by simpa using hl)]; simp [hl]
   | cons c rest ih =>
     intro b p tlast vo rs h
     by_cases hl : live cutoff b = true
     · cases hs : solveI b.volt b.rs ((phaseList phases).getD p "") with
       | error e => rw [loop_err _ _ _ _ _ _ _ _ _ _ hl e hs] at h; simp at h
-      | ok i0 =>
-        cases c with
-        | raise e => rw [loop_raise _ _ _ _ _ _ _ _ _ _ _ hl i0 hs] at h; simp at h
-        | ret b' =>
-          rw [loop_ret _ _ _ _ _ _ _ _ _ _ _ hl i0 hs] at h ⊢
-          simp only at h ⊢
-          obtain ⟨ih1, ih2⟩ := ih b' _ _ b.volt b.rs h
-          by_cases hl' : live cutoff b' = true
-          · simp only [hl', if_true] at ih1 ih2 ⊢
-            obtain ⟨bd, hbd, hd⟩ := ih2 trivial
-            refine ⟨?_, fun _ => ⟨bd, ?_, hd⟩⟩
-            · simp only [hl, if_true, List.cons_append, List.nil_append, List.map_cons, rets, List.takeWhile_cons, hl', ih1]
-              rw [row_state]
-            · simpa [rets] using hbd
-          · have hl'' : live cutoff b' = false := by simpa using hl'
-            simp only [hl'', Bool.false_eq_true, if_false, List.map_eq_nil_iff] at ih1 ⊢
-            refine ⟨?_, fun _ => ⟨b', ?_, hl''⟩⟩
-            · simp [hl, ih1, rets, hl'']
-            · simp [ih1, rets]
+      | ok r0 =>
+        obtain ⟨i0, it⟩ := r0
+        by_cases hit : it > 10000
+        · rw [loop_nonconv _ _ _ _ _ _ _ _ _ _ hl i0 it hs hit] at h; simp at h
+        · cases c with
+          | raise e => rw [loop_raise _ _ _ _ _ _ _ _ _ _ _ hl i0 it hs hit] at h; simp at h
+          | ret b' =>
+            rw [loop_ret _ _ _ _ _ _ _ _ _ _ _ hl i0 it hs hit] at h ⊢
+            simp only at h ⊢
+            obtain ⟨ih1, ih2⟩ := ih b' _ _ b.volt b.rs h
+            by_cases hl' : live cutoff b' = true
+            · simp only [hl', if_true] at ih1 ih2 ⊢
+              obtain ⟨bd, hbd, hd⟩ := ih2 trivial
+              refine ⟨?_, fun _ => ⟨bd, ?_, hd⟩⟩
+              · simp only [hl, if_true, List.cons_append, List.nil_append, List.map_cons, rets, List.takeWhile_cons, hl', ih1]
+                rw [row_state]
+              · simpa [rets] using hbd
+            · have hl'' : live cutoff b' = false := by simpa using hl'
+              simp only [hl'', Bool.false_eq_true, if_false, List.map_eq_nil_iff] at ih1 ⊢
+              refine ⟨?_, fun _ => ⟨b', ?_, hl''⟩⟩
+              · simp [hl, ih1, rets, hl'']
+              · simp [ih1, rets]
     · rw [loop_dead _ _ _ _ _ _ _ _ _ _ (by simpa using hl)]; simp [hl]
 
 /-! ### the time column -/
@@ -183,39 +205,46 @@ theorem loop_time (script : List (Cb α)) :
     by_cases hl : live cutoff b = true
     · cases hs : solveI b.volt b.rs ((phaseList phases).getD p "") with
       | error e => rw [loop_err _ _ _ _ _ _ _ _ _ _ hl e hs]; simp
-      | ok i0 => rw [loop_nil _ _ _ _ _ _ _ _ _ hl i0 hs]; simp
+      | ok r0 =>
+        obtain ⟨i0, it⟩ := r0
+        by_cases hit : it > 10000
+        · rw [loop_nonconv _ _ _ _ _ _ _ _ _ _ hl i0 it hs hit]; simp
+        · rw [loop_nil _ _ _ _ _ _ _ _ _ hl i0 it hs hit]; simp
     · rw [loop_dead _ _ _ _ _ _ _ _ _ _ (by simpa using hl)]; simp
   | cons c rest ih =>
     intro b p tlast vo rs h
     by_cases hl : live cutoff b = true
     · cases hs : solveI b.volt b.rs ((phaseList phases).getD p "") with
       | error e => rw [loop_err _ _ _ _ _ _ _ _ _ _ hl e hs]; simp
-      | ok i0 =>
-        cases c with
-        | raise e => rw [loop_raise _ _ _ _ _ _ _ _ _ _ _ hl i0 hs]; simp
-        | ret b' =>
-          rw [loop_ret _ _ _ _ _ _ _ _ _ _ _ hl i0 hs] at h ⊢
-          simp only [List.mem_cons, forall_eq_or_imp] at h ⊢
-          obtain ⟨hdt, hrest⟩ := h
-          obtain ⟨ih1, ih2⟩ := ih b' _ _ b.volt b.rs hrest
-          by_cases hl' : live cutoff b' = true
-          · simp only [hl', if_true] at ih1 ih2 ⊢
-            have hlt : tlast < tlast + deltaT phases cap0 i0 ((phaseList phases).getD p "") := by linarith
-            refine ⟨?_, ?_⟩
-            · intro r hr
-              simp only [List.cons_append, List.nil_append, List.mem_cons] at hr
-              rcases hr with rfl | hr
-              · exact hlt
-              · exact lt_trans hlt (ih1 r hr)
-            · simp only [List.cons_append, List.nil_append, List.map_cons, List.pairwise_cons]
-              refine ⟨?_, ih2⟩
-              intro t ht
-              simp only [List.mem_map] at ht
-              obtain ⟨r, hr, rfl⟩ := ht
-              exact ih1 r hr
-          · have hl'' : live cutoff b' = false := by simpa using hl'
-            simp only [hl'', Bool.false_eq_true, if_false, List.nil_append] at ih1 ih2 ⊢
-            exact ⟨ih1, ih2⟩
+      | ok r0 =>
+        obtain ⟨i0, it⟩ := r0
+        by_cases hit : it > 10000
+        · rw [loop_nonconv _ _ _ _ _ _ _ _ _ _ hl i0 it hs hit]; simp
+        · cases c with
+          | raise e => rw [loop_raise _ _ _ _ _ _ _ _ _ _ _ hl i0 it hs hit]; simp
+          | ret b' =>
+            rw [loop_ret _ _ _ _ _ _ _ _ _ _ _ hl i0 it hs hit] at h ⊢
+            simp only [List.mem_cons, forall_eq_or_imp] at h ⊢
+            obtain ⟨hdt, hrest⟩ := h
+            obtain ⟨ih1, ih2⟩ := ih b' _ _ b.volt b.rs hrest
+            by_cases hl' : live cutoff b' = true
+            · simp only [hl', if_true] at ih1 ih2 ⊢
+              have hlt : tlast < tlast + deltaT phases cap0 i0 ((phaseList phases).getD p "") := by linarith
+              refine ⟨?_, ?_⟩
+              · intro r hr
+                simp only [List.cons_append, List.nil_append, List.mem_cons] at hr
+                rcases hr with rfl | hr
+                · exact hlt
+                · exact lt_trans hlt (ih1 r hr)
+              · simp only [List.cons_append, List.nil_append, List.map_cons, List.pairwise_cons]
+                refine ⟨?_, ih2⟩
+                intro t ht
+                simp only [List.mem_map] at ht
+                obtain ⟨r, hr, rfl⟩ := ht
+                exact ih1 r hr
+            · have hl'' : live cutoff b' = false := by simpa using hl'
+              simp only [hl'', Bool.false_eq_true, if_false, List.nil_append] at ih1 ih2 ⊢
+              exact ⟨ih1, ih2⟩
     · rw [loop_dead _ _ _ _ _ _ _ _ _ _ (by simpa using hl)]; simp
 
 theorem loop_timechain (script : List (Cb α)) :
@@ -228,25 +257,32 @@ theorem loop_timechain (script : List (Cb α)) :
     by_cases hl : live cutoff b = true
     · cases hs : solveI b.volt b.rs ((phaseList phases).getD p "") with
       | error e => rw [loop_err _ _ _ _ _ _ _ _ _ _ hl e hs]; simp [TimeChain]
-      | ok i0 => rw [loop_nil _ _ _ _ _ _ _ _ _ hl i0 hs]; simp [TimeChain]
+      | ok r0 =>
+        obtain ⟨i0, it⟩ := r0
+        by_cases hit : it > 10000
+        · rw [loop_nonconv _ _ _ _ _ _ _ _ _ _ hl i0 it hs hit]; simp [TimeChain]
+        · rw [loop_nil _ _ _ _ _ _ _ _ _ hl i0 it hs hit]; simp [TimeChain]
     · rw [loop_dead _ _ _ _ _ _ _ _ _ _ (by simpa using hl)]; simp [TimeChain]
   | cons c rest ih =>
     intro b p tlast vo rs
     by_cases hl : live cutoff b = true
     · cases hs : solveI b.volt b.rs ((phaseList phases).getD p "") with
       | error e => rw [loop_err _ _ _ _ _ _ _ _ _ _ hl e hs]; simp [TimeChain]
-      | ok i0 =>
-        cases c with
-        | raise e => rw [loop_raise _ _ _ _ _ _ _ _ _ _ _ hl i0 hs]; simp [TimeChain]
-        | ret b' =>
-          rw [loop_ret _ _ _ _ _ _ _ _ _ _ _ hl i0 hs]
-          by_cases hl' : live cutoff b' = true
-          · simp only [hl', if_true, List.cons_append, List.nil_append, List.map_cons, TimeChain, true_and]
-            exact ih b' _ _ b.volt b.rs
-          · have hl'' : live cutoff b' = false := by simpa using hl'
-            simp only [hl'', Bool.false_eq_true, if_false, List.nil_append]
-            rw [loop_dead _ _ _ _ _ _ _ _ _ _ hl'']
-            simp [TimeChain]
+      | ok r0 =>
+        obtain ⟨i0, it⟩ := r0
+        by_cases hit : it > 10000
+        · rw [loop_nonconv _ _ _ _ _ _ _ _ _ _ hl i0 it hs hit]; simp [TimeChain]
+        · cases c with
+          | raise e => rw [loop_raise _ _ _ _ _ _ _ _ _ _ _ hl i0 it hs hit]; simp [TimeChain]
+          | ret b' =>
+            rw [loop_ret _ _ _ _ _ _ _ _ _ _ _ hl i0 it hs hit]
+            by_cases hl' : live cutoff b' = true
+            · simp only [hl', if_true, List.cons_append, List.nil_append, List.map_cons, TimeChain, true_and]
+              exact ih b' _ _ b.volt b.rs
+            · have hl'' : live cutoff b' = false := by simpa using hl'
+              simp only [hl'', Bool.false_eq_true, if_false, List.nil_append]
+              rw [loop_dead _ _ _ _ _ _ _ _ _ _ hl'']
+              simp [TimeChain]
     · rw [loop_dead _ _ _ _ _ _ _ _ _ _ (by simpa using hl)]; simp [TimeChain]
 end
 
